@@ -27,17 +27,19 @@ pub(crate) mod verif_c01 {
         None_,
         Unit,
         UnitStruct(usize),
-        UnitVariant(u32, usize),
+        /// (index, name length, variant length)
+        UnitVariant(u32, usize, usize),
         Some_,
         NewtypeStruct(usize),
-        NewtypeVariant(u32, usize),
+        NewtypeVariant(u32, usize, usize),
         Seq(Option<usize>),
         Tuple(usize),
         TupleStruct(usize, usize),
-        TupleVariant(u32, usize),
+        /// (index, name length, variant length, len)
+        TupleVariant(u32, usize, usize, usize),
         Map(Option<usize>),
         Struct(usize, usize),
-        StructVariant(u32, usize),
+        StructVariant(u32, usize, usize, usize),
         Elem,
         Field(usize),
         Key,
@@ -225,16 +227,16 @@ pub(crate) mod verif_c01 {
         fn serialize_some<T: ?Sized + Serialize>(self, v: &T) -> Result<(), E> { log(Ev::Some_); v.serialize(Sink) }
         fn serialize_unit(self) -> Result<(), E> { log(Ev::Unit); Ok(()) }
         fn serialize_unit_struct(self, name: &'static str) -> Result<(), E> { log(Ev::UnitStruct(name.len())); Ok(()) }
-        fn serialize_unit_variant(self, _: &'static str, i: u32, variant: &'static str) -> Result<(), E> { log(Ev::UnitVariant(i, variant.len())); Ok(()) }
+        fn serialize_unit_variant(self, name: &'static str, i: u32, variant: &'static str) -> Result<(), E> { log(Ev::UnitVariant(i, name.len(), variant.len())); Ok(()) }
         fn serialize_newtype_struct<T: ?Sized + Serialize>(self, name: &'static str, v: &T) -> Result<(), E> { log(Ev::NewtypeStruct(name.len())); v.serialize(Sink) }
-        fn serialize_newtype_variant<T: ?Sized + Serialize>(self, _: &'static str, i: u32, variant: &'static str, v: &T) -> Result<(), E> { log(Ev::NewtypeVariant(i, variant.len())); v.serialize(Sink) }
+        fn serialize_newtype_variant<T: ?Sized + Serialize>(self, name: &'static str, i: u32, variant: &'static str, v: &T) -> Result<(), E> { log(Ev::NewtypeVariant(i, name.len(), variant.len())); v.serialize(Sink) }
         fn serialize_seq(self, len: Option<usize>) -> Result<Comp, E> { log(Ev::Seq(len)); Ok(Comp) }
         fn serialize_tuple(self, len: usize) -> Result<Comp, E> { log(Ev::Tuple(len)); Ok(Comp) }
         fn serialize_tuple_struct(self, name: &'static str, len: usize) -> Result<Comp, E> { log(Ev::TupleStruct(name.len(), len)); Ok(Comp) }
-        fn serialize_tuple_variant(self, _: &'static str, i: u32, _: &'static str, len: usize) -> Result<Comp, E> { log(Ev::TupleVariant(i, len)); Ok(Comp) }
+        fn serialize_tuple_variant(self, name: &'static str, i: u32, variant: &'static str, len: usize) -> Result<Comp, E> { log(Ev::TupleVariant(i, name.len(), variant.len(), len)); Ok(Comp) }
         fn serialize_map(self, len: Option<usize>) -> Result<Comp, E> { log(Ev::Map(len)); Ok(Comp) }
         fn serialize_struct(self, name: &'static str, len: usize) -> Result<Comp, E> { log(Ev::Struct(name.len(), len)); Ok(Comp) }
-        fn serialize_struct_variant(self, _: &'static str, i: u32, _: &'static str, len: usize) -> Result<Comp, E> { log(Ev::StructVariant(i, len)); Ok(Comp) }
+        fn serialize_struct_variant(self, name: &'static str, i: u32, variant: &'static str, len: usize) -> Result<Comp, E> { log(Ev::StructVariant(i, name.len(), variant.len(), len)); Ok(Comp) }
         fn is_human_readable(&self) -> bool { unsafe { HUMAN } }
     }
     impl SerializeSeq for Comp {
@@ -324,7 +326,7 @@ pub(crate) mod verif_c01 {
         assert!(n() == 1 && at(0) == Ev::UnitStruct(4));
         let i: u32 = kani::any();
         assert!(o().serialize_unit_variant("Name", i, "Var").is_ok());
-        assert!(n() == 1 && at(0) == Ev::UnitVariant(i, 3));
+        assert!(n() == 1 && at(0) == Ev::UnitVariant(i, 4, 3));
         kani::cover!(true);
     }
 
@@ -370,7 +372,7 @@ pub(crate) mod verif_c01 {
         let d: f64 = kani::any();
         let i: u32 = kani::any();
         assert!(o().serialize_newtype_variant("Nm", i, "Var", &d).is_ok());
-        assert!(n() == 3 && at(0) == Ev::NewtypeVariant(i, 3) && at(1) == Ev::HookF64(d.to_bits()) && at(2) == Ev::F64(d.to_bits()));
+        assert!(n() == 3 && at(0) == Ev::NewtypeVariant(i, 2, 3) && at(1) == Ev::HookF64(d.to_bits()) && at(2) == Ev::F64(d.to_bits()));
         kani::cover!(true);
     }
 
@@ -439,7 +441,7 @@ pub(crate) mod verif_c01 {
         let i: u32 = kani::any();
         let d: f64 = kani::any();
         let mut s = o().serialize_tuple_variant("Nm", i, "Var", len).unwrap();
-        assert!(n() == 1 && at(0) == Ev::TupleVariant(i, len));
+        assert!(n() == 1 && at(0) == Ev::TupleVariant(i, 2, 3, len));
         reset();
         assert!(SerializeTupleVariant::serialize_field(&mut s, &d).is_ok());
         assert!(n() == 3 && at(0) == Ev::Elem && at(1) == Ev::HookF64(d.to_bits()) && at(2) == Ev::F64(d.to_bits()));
@@ -512,7 +514,7 @@ pub(crate) mod verif_c01 {
         let i: u32 = kani::any();
         let d: f64 = kani::any();
         let mut s = o().serialize_struct_variant("Nm", i, "Var", len).unwrap();
-        assert!(n() == 1 && at(0) == Ev::StructVariant(i, len));
+        assert!(n() == 1 && at(0) == Ev::StructVariant(i, 2, 3, len));
         reset();
         assert!(SerializeStructVariant::serialize_field(&mut s, "fld", &d).is_ok());
         assert!(n() == 3 && at(0) == Ev::Field(3) && at(1) == Ev::HookF64(d.to_bits()) && at(2) == Ev::F64(d.to_bits()));
@@ -682,7 +684,7 @@ pub(crate) mod verif_c01 {
         let i: u32 = kani::any();
         reset();
         assert!(ser::Serializer::serialize_unit_variant(&mut e, "Name", i, "Var").is_ok());
-        assert!(n() == 1 && at(0) == Ev::UnitVariant(i, 3));
+        assert!(n() == 1 && at(0) == Ev::UnitVariant(i, 4, 3));
         kani::cover!(true);
     }
 
@@ -699,7 +701,7 @@ pub(crate) mod verif_c01 {
         assert!(n() == 3 && at(0) == Ev::NewtypeStruct(2) && hook_then_raw(d, 1));
         reset();
         assert!(ser::Serializer::serialize_newtype_variant(&mut e, "Nm", i, "Var", &d).is_ok());
-        assert!(n() == 3 && at(0) == Ev::NewtypeVariant(i, 3) && hook_then_raw(d, 1));
+        assert!(n() == 3 && at(0) == Ev::NewtypeVariant(i, 2, 3) && hook_then_raw(d, 1));
         kani::cover!(true);
     }
 
@@ -730,7 +732,7 @@ pub(crate) mod verif_c01 {
         assert!(n() == 3 && at(0) == Ev::Elem && hook_then_raw(d, 1));
         reset();
         let mut s = ser::Serializer::serialize_tuple_variant(&mut e, "Nm", i, "Var", len).unwrap();
-        assert!(n() == 1 && at(0) == Ev::TupleVariant(i, len));
+        assert!(n() == 1 && at(0) == Ev::TupleVariant(i, 2, 3, len));
         reset();
         assert!(SerializeTupleVariant::serialize_field(&mut s, &d).is_ok());
         assert!(n() == 3 && at(0) == Ev::Elem && hook_then_raw(d, 1));
@@ -762,7 +764,7 @@ pub(crate) mod verif_c01 {
         assert!(n() == 3 && at(0) == Ev::Field(3) && hook_then_raw(d, 1));
         reset();
         let mut s = ser::Serializer::serialize_struct_variant(&mut e, "Nm", i, "Var", len).unwrap();
-        assert!(n() == 1 && at(0) == Ev::StructVariant(i, len));
+        assert!(n() == 1 && at(0) == Ev::StructVariant(i, 2, 3, len));
         reset();
         assert!(SerializeStructVariant::serialize_field(&mut s, "fld", &d).is_ok());
         assert!(n() == 3 && at(0) == Ev::Field(3) && hook_then_raw(d, 1));
